@@ -216,14 +216,20 @@ func subjects() []subject {
 		}},
 		// the callback of With / Using runs under the object's lock: two callbacks that
 		// mutate what the protected value refers to never overlap
-		{"adt.Synchronized(pointer)", []string{"fresh"}, func(pre string) any { v := 0; return adt.NewSynchronized(&v) }, []op{
-			{"With(mutate)", func(_ context.Context, o any) { o.(*adt.Synchronized[*int]).With(func(p *int) { *p = *p + 1 }) }},
-			{"Using(mutate)", func(_ context.Context, o any) {
-				s := o.(*adt.Synchronized[*int])
-				p := s.Get()
-				s.Using(func() { *p = *p + 1 })
+		// (the protected value is a library type that is not safe by itself, so that its
+		// accesses are visible to the oracle: harness code is not instrumented for accesses)
+		{"adt.Synchronized(*dt.List)", []string{"fresh"}, func(pre string) any { return adt.NewSynchronized(&dt.List[int]{}) }, []op{
+			{"With(PushBack)", func(_ context.Context, o any) {
+				o.(*adt.Synchronized[*dt.List[int]]).With(func(l *dt.List[int]) { l.PushBack(1) })
 			}},
-			{"With(read)", func(_ context.Context, o any) { o.(*adt.Synchronized[*int]).With(func(p *int) { _ = *p }) }},
+			{"Using(PushFront)", func(_ context.Context, o any) {
+				s := o.(*adt.Synchronized[*dt.List[int]])
+				l := s.Get()
+				s.Using(func() { l.PushFront(2) })
+			}},
+			{"With(Len)", func(_ context.Context, o any) {
+				o.(*adt.Synchronized[*dt.List[int]]).With(func(l *dt.List[int]) { _ = l.Len() })
+			}},
 		}},
 		{"adt.Once", []string{"fresh"}, func(pre string) any { return adt.NewOnce(func() int { return 1 }) }, []op{
 			{"Resolve", func(_ context.Context, o any) { _ = o.(*adt.Once[int]).Resolve() }},
